@@ -129,6 +129,29 @@ class Model:
             if c["kind"] == "RecordDecl":
                 self._add_record(c)
 
+    def first_word_members(self, sname):
+        """names of the members of struct `sname` that start at offset 0 (the first field; for an anonymous union in
+        first place every member of it; for an anonymous struct its first field)"""
+        d = self.record_nodes.get(sname)
+        if d is None:
+            return set()
+        prev = None
+        for c in kids(d):
+            if c["kind"] == "RecordDecl":
+                prev = c
+                continue
+            if c["kind"] != "FieldDecl":
+                continue
+            if c.get("name"):
+                return {c["name"]}
+            if prev is not None:
+                fl = [x for x in kids(prev) if x["kind"] == "FieldDecl" and x.get("name")]
+                if prev.get("tagUsed") == "union":
+                    return {x["name"] for x in fl}
+                return {fl[0]["name"]} if fl else set()
+            return set()
+        return set()
+
     def _add_enum(self, d):
         names = [c.get("name") for c in kids(d) if c["kind"] == "EnumConstantDecl"]
         if d.get("name"):
